@@ -558,7 +558,7 @@ def ser_with_sym(ctx):
             s = ty.get('s', '')
             if 'Vec<(K, V)>' in s:
                 d_ok = True
-    coll = any(is_call(st, 'collect') for st in subterms(rt))
+    coll = any(is_call(st, ('collect', 'from_iter')) for st in subterms(rt))
     ctx.check(s_ok and d_ok and coll, 'btreemap_as_vec', sb, 'Vec<(K,V)> written from every entry and read back into a map',
               'btreemap_as_vec: serialize %s a Vec of pairs of every entry, deserialize %s a Vec<(K, V)>%s'
               % ('emits' if s_ok else 'does NOT emit', 'reads' if d_ok else 'does NOT read', '' if coll else ' and does not collect it'))
